@@ -232,23 +232,80 @@ def build_blocks(L: B09Lib, p: Proc) -> List[object]:
     return root
 
 
+class _Unmodelled(Exception):
+    pass
+
+
 def definitely_assigns(L: B09Lib, p: Proc, items: List[object], var: str) -> bool:
-    for it in items:
-        if isinstance(it, Stmt):
-            if it.kind in ("assign", "read") and it.target == var:
-                return True
-            if it.kind == "run" and any(re.fullmatch(rf"(?i)\s*{re.escape(var)}\s*", a) for a in it.run_args):
-                return True  # passed by reference to a procedure that fills it
-            if it.kind == "error":
-                return True  # path does not reach the normal exit
-        else:
-            b: _Block = it
-            if b.kind == "if":
-                if b.orelse is not None and definitely_assigns(L, p, b.body, var) and definitely_assigns(L, p, b.orelse, var):
-                    return True
-            elif b.kind in ("loop", "repeat"):
-                pass  # bodies of loops are not relied upon
-    return False
+    """Must-assignment of `var` at every normal exit (END / RETURN / falling off the end).
+
+    Straight-line statements, IF/ELSE, loops (bodies may run zero times; an exit inside a body is judged with the state at loop
+    entry), `ERROR n` (abnormal exit: no obligation) and `ON ERROR GOTO <label>` with a label at the top level of the procedure
+    (from the statement on, control may arrive at the label with no more than what was assigned when the trap was installed)."""
+    exits_ok = [True]
+    traps: Dict[str, bool] = {}
+    UNREACH = None  # state of a path that cannot continue
+
+    def assigns(st: Stmt) -> bool:
+        if st.kind in ("assign", "read") and st.target == var:
+            return True
+        if st.kind == "run" and any(re.fullmatch(rf"(?i)\s*{re.escape(var)}\s*", a) for a in st.run_args):
+            return True  # passed by reference to a procedure that fills it
+        return False
+
+    def join(a, b):
+        if a is UNREACH:
+            return b
+        if b is UNREACH:
+            return a
+        return a and b
+
+    def run(its: List[object], state, top: bool):
+        for it in its:
+            if isinstance(it, Stmt):
+                if it.label and it.label in traps:
+                    if not top:
+                        raise _Unmodelled(f"error-trap label {it.label} inside a block")
+                    state = traps[it.label] if state is UNREACH else (state and traps[it.label])
+                if state is UNREACH:
+                    continue
+                low = it.text.lower().split()
+                if low[:3] == ["on", "error", "goto"] and len(low) >= 4:
+                    traps[low[3]] = state if low[3] not in traps else (traps[low[3]] and state)
+                    continue
+                if low[:1] in (["goto"], ["gosub"]) or (low[:1] == ["on"] and low[:2] != ["on", "error"]):
+                    raise _Unmodelled(f"jump `{it.text.strip()}`")
+                if it.kind == "error":
+                    state = UNREACH
+                    continue
+                if it.kind == "end":
+                    if not state:
+                        exits_ok[0] = False
+                    state = UNREACH
+                    continue
+                if assigns(it):
+                    state = True
+            else:
+                b: _Block = it
+                if state is UNREACH:
+                    continue
+                if b.kind == "if":
+                    s1 = run(b.body, state, False)
+                    s2 = run(b.orelse, state, False) if b.orelse is not None else state
+                    state = join(s1, s2)
+                elif b.kind == "repeat":
+                    state = run(b.body, state, False)
+                else:
+                    run(b.body, state, False)  # for / while / loop / exitif bodies: exits inside are judged, assignments not relied upon
+        return state
+
+    final = run(items, False, True)
+    for lab in traps:
+        if not any(isinstance(it, Stmt) and it.label == lab for it in items):
+            raise _Unmodelled(f"error-trap label {lab} is not at the top level of the procedure")
+    if final is not UNREACH and not final:
+        exits_ok[0] = False
+    return exits_ok[0]
 
 
 def functional_procedures(ctx: Ctx) -> Dict[str, str]:
@@ -282,13 +339,11 @@ def functional_procedures(ctx: Ctx) -> Dict[str, str]:
 
 # result not definitely assigned by construction, accepted with a reason
 L7_EXCEPTIONS = {
-    "ecb_button": "two complementary one-line IFs on land(button,1)=0 / =1; path-insensitive analysis cannot join them",
     "ecb_joystk": "four one-line IFs selecting the axis 0..3; other selector values are outside the function's domain",
-    "ecb_val": "assigned before ON ERROR GOTO; analysis treats the label line as opaque",
 }
 
 
-@rule("L7", "RESULT-ASSIGNED: a procedure standing in for a function assigns its result parameter on every normal path", ["C20", "C03"], floor=4)
+@rule("L7", "RESULT-ASSIGNED: a procedure standing in for a function assigns its result parameter on every path to a normal exit, error traps included", ["C20", "C03", "C01"], floor=4, default_props=["C20", "C03"])
 def l7(ctx: Ctx):
     L = b09lib(ctx)
     funcs = functional_procedures(ctx)
@@ -301,19 +356,25 @@ def l7(ctx: Ctx):
         ctx.need(p.params, name, "functional procedure without parameters")
         res = p.params[-1][0]
         blocks = build_blocks(L, p)
-        ok = definitely_assigns(L, p, blocks, res)
+        try:
+            ok = definitely_assigns(L, p, blocks, res)
+        except _Unmodelled as e_:
+            if name in ("ecb_instr", "ecb_string", "ecb_read_filter"):
+                raise AnalysisError("L7", f"{name}.{res}", f"control flow this rule does not model: {e_}")
+            ctx.undecided(f"{name}.{res}", f"control flow this rule does not model: {e_}", file=LIB_REL, line=p.line)
+            continue
         if not ok and name in L7_EXCEPTIONS:
             ctx.info(f"{name}.{res}", "exception: " + L7_EXCEPTIONS[name], file=LIB_REL, line=p.line)
             continue
-        if name not in ("ecb_instr", "ecb_string", "ecb_read_filter"):
-            ctx.info(f"{name}.{res}", ("assigned on every normal path" if ok else "NOT assigned on every normal path") + " (not one of the three helpers the property names)", file=LIB_REL, line=p.line)
-            continue
+        # the three helpers C20 names; VAL / STR$ are named by C03; every other one is a built-in function of the expression fragment (C01)
+        props_ = ["C20", "C03", "C01"] if name in ("ecb_instr", "ecb_string") else ["C20", "C03"] if name == "ecb_read_filter" else ["C03", "C01"] if name in ("ecb_val", "ecb_str") else ["C01"]
         ctx.ob(
             f"{name}.{res}",
             ok,
-            "" if ok else f"procedure {name} (stands in for a function, used at {src}) does not assign its result parameter `{res}` on every path to its normal exit (loops may run zero times / an IF has no ELSE): the caller's temporary keeps its previous value",
+            "" if ok else f"procedure {name} (stands in for a function, used at {src}) does not assign its result parameter `{res}` on every path to a normal exit (an END before the first assignment, a loop that may run zero times, an IF without ELSE, or an error trap installed before the result has a value): the caller's variable keeps its previous value",
             file=LIB_REL,
             line=p.line,
+            props=props_,
         )
     # C20: the empty branch of the read filter yields the constant 0
     p = L.proc("ecb_read_filter")
@@ -333,3 +394,148 @@ def l7(ctx: Ctx):
                 ctx.ob("ecb_read_filter.empty->0", zero, "" if zero else "the branch taken for an empty DATA item does not assign the constant 0", file=LIB_REL, line=b.head.line, props=["C20", "C03"])
                 ctx.ob("ecb_read_filter.else->val", uses_val, "" if uses_val else "the branch for a non-empty item does not assign VAL(item)", file=LIB_REL, line=b.head.line, props=["C20", "C03"])
     ctx.need(found, "ecb_read_filter", 'two-armed IF on `<input> = ""` not found')
+
+
+# ---------------------------------------------------------------------------
+# L10 ALIAS-SAFE
+
+
+def _idents(text: str) -> List[str]:
+    """Identifiers of a BASIC09 expression / statement text, outside string literals, lower-cased (record fields cut to the base)."""
+    t = re.sub(r'"[^"]*"', '""', text)
+    return [m.group(0).lower().split(".")[0] for m in re.finditer(r"[A-Za-z_][A-Za-z0-9_$]*(?:\.[A-Za-z_][A-Za-z0-9_]*)*", t)]
+
+
+@rule(
+    "L10",
+    "ALIAS-SAFE: `X = F(..X..)` hands X to the procedure both as an argument and as the result (by reference); a procedure standing in for a function never reads an input parameter of the result's type after it may have written the result",
+    ["C20", "C03", "C01"],
+    floor=1,
+    default_props=["C01"],
+)
+def l10(ctx: Ctx):
+    L = b09lib(ctx)
+    py = pyfacts(ctx)
+    # the emitter does alias: the patcher gives the function the assignment's own target as its result variable
+    aliasing = False
+    from .pyast import resolve_alias
+
+    for rel in ("coco/b09/visitors.py", "coco/b09/elements.py"):
+        for fn_ in [f for f in ast.walk(py.mod(rel).tree) if isinstance(f, ast.FunctionDef)]:
+            for n in walk_no_nested(fn_):
+                if isinstance(n, ast.Call) and isinstance(n.func, ast.Attribute) and n.func.attr == "set_var" and len(n.args) == 1:
+                    a = resolve_alias(fn_, n.args[0])
+                    recv = resolve_alias(fn_, n.func.value)
+                    if isinstance(a, ast.Attribute) and a.attr == "var" and isinstance(recv, ast.Attribute) and recv.attr == "exp" and unparse(resolve_alias(fn_, a.value)) == unparse(resolve_alias(fn_, recv.value)):
+                        aliasing = True
+    if not aliasing:
+        ctx.undecided("emitter", "the patcher no longer binds the assignment target as the function's result variable (`statement.exp.set_var(statement.var)`): whether calls can alias is not decided here", file="coco/b09/visitors.py", line=1)
+        return
+    funcs = functional_procedures(ctx)
+    from .absint import Seq
+    from .rules_abs import run_sites
+
+    arities: Dict[str, Set[int]] = {}
+    for s_ in run_sites(ctx):
+        m_ = re.fullmatch(r"(?i)run\s+(\w+)", s_["inv"].strip())
+        if m_ and s_["kind"] == "function" and isinstance(s_["args"], Seq) and s_["args"].tail is None:
+            arities.setdefault(m_.group(1).lower(), set()).add(len(s_["args"].items))
+    for name, src in sorted(funcs.items()):
+        if name.lower() in SYSTEM_MODULES or name not in L.procs:
+            continue
+        p = L.procs[name]
+        if len(p.params) < 2:
+            continue
+        res, rtype, _ = p.params[-1]
+        inputs = {pn for pn, pt, _ in p.params[:-1] if pt == rtype}
+        if not inputs:
+            ctx.info(f"{name}", f"no input parameter has the type of the result `{res}` ({rtype}): the same variable cannot be passed for both", file=LIB_REL, line=p.line)
+            continue
+        # the emitter fills the leading parameters with the operands and the next one with the result variable
+        n_ops = arities.get(name.lower())
+        if n_ops is None:
+            ctx.undecided(f"{name}", "no emission site with a fixed argument list found for this procedure", file=LIB_REL, line=p.line)
+            continue
+        if len(n_ops) != 1 or next(iter(n_ops)) + 1 != len(p.params):
+            ctx.info(f"{name}", f"emitted with {sorted(n_ops)} operands + result for {len(p.params)} parameters: the interface mismatch is rule L1's finding, aliasing is not judged", file=LIB_REL, line=p.line)
+            continue
+        blocks = build_blocks(L, p)
+        hits: List[Tuple[int, str, str]] = []
+        has_trap = any(s.text.lower().split()[:3] == ["on", "error", "goto"] for s in L.all_stmts(p))
+        any_write = [False]
+
+        def reads(text: str, written: bool, line: int):
+            if written:
+                for idn in _idents(text):
+                    if idn in inputs and not any(h[0] == line and h[1] == idn for h in hits):
+                        hits.append((line, idn, text.strip()))
+
+        def stmt(st: Stmt, written: bool) -> Optional[bool]:
+            """State after the statement; None = the path ends here."""
+            if st.label and has_trap and any_write[0]:
+                written = True  # an error trap may arrive here from any point after a write
+            if st.kind in ("error", "end"):
+                reads(st.text, written, st.line)
+                return None
+            if st.kind in ("assign", "read") and st.target == res:
+                m = re.match(r"(?is)^[^=]*?:?=(.*)$", st.text)
+                reads(m.group(1) if m else st.text, written, st.line)
+                any_write[0] = True
+                return True
+            if st.kind == "run":
+                reads(" ".join(a for a in st.run_args if a.strip().lower() != res), written, st.line)
+                if any(a.strip().lower() == res for a in st.run_args):
+                    any_write[0] = True
+                    return True
+                return written
+            reads(st.text, written, st.line)
+            return written
+
+        def walk(items: List[object], written: bool) -> Optional[bool]:
+            cur: Optional[bool] = written
+            for it in items:
+                if cur is None:
+                    # code after ERROR / END is only reachable through a label
+                    if isinstance(it, Stmt) and it.label:
+                        cur = bool(any_write[0])
+                    else:
+                        continue
+                if isinstance(it, Stmt):
+                    cur = stmt(it, cur)
+                    continue
+                b = it
+                head = b.head
+                if b.kind in ("if", "exitif"):
+                    cond = re.match(r"(?is)^\s*(?:if|exitif)\s+(.*?)\s+then\b", head.text)
+                    reads(cond.group(1) if cond else head.text, cur, head.line)
+                    s1 = walk(b.body, cur)
+                    s2 = walk(b.orelse, cur) if b.orelse is not None else cur
+                    if b.kind == "exitif":
+                        s1 = None if s1 is None else s1
+                        cur = (s1 or False) or (s2 or False) if not (s1 is None and s2 is None) else None
+                    else:
+                        cur = None if (s1 is None and s2 is None) else bool(s1) or bool(s2)
+                else:
+                    # loops: the head is evaluated at entry (FOR bounds) or before every round (WHILE / UNTIL)
+                    if head is not None and b.kind == "for":
+                        reads(head.text, cur, head.line)
+                    s1 = walk(b.body, cur)
+                    again = bool(cur) or bool(s1)
+                    if head is not None and b.kind in ("while", "repeat"):
+                        reads(head.text, again, head.line)
+                    walk(b.body, again)  # a later round runs after whatever an earlier one wrote
+                    cur = again
+            return cur
+
+        walk(blocks, False)
+        props_ = ["C20", "C03", "C01"] if name in ("ecb_instr", "ecb_string") else ["C03", "C01"] if name in ("ecb_val", "ecb_str") else ["C01"]
+        ok = not hits
+        ctx.ob(
+            f"{name}",
+            ok,
+            "" if ok else f"procedure {name} reads its input parameter `{hits[0][1]}` (line {hits[0][0]}: `{hits[0][2]}`) after it may have written the result parameter `{res}`; both are {rtype} and the emitter passes one variable for both in `X = F(X)`: the function sees its own half-built result instead of its argument",
+            file=LIB_REL,
+            line=hits[0][0] if hits else p.line,
+            props=props_,
+            signature="" if ok else "reads " + ", ".join(sorted({h[1] for h in hits})) + " after writing the result",
+        )
